@@ -81,6 +81,8 @@ func C01(c *Ctx) {
 	c.importKeyRule("C01-9")
 	c.typeNameRule("C01-10")
 	c.importTableRule("C01-11")
+	c.getterShapeRule("C01-12")
+	c.typePredicateRule("C01-13")
 }
 
 // wrapperRule: wrappers never surround nodes that may return (value, error).
